@@ -384,11 +384,11 @@ def _finish(cid, tier, seed, mod, known, results, crashes, timeouts, herrs, tota
     print("  monitors: " + json.dumps(show))
     for l in out_lines:
         print(l)
+    for i in inconclusive:
+        print("INCONCLUSIVE property=%s %s" % (cid, i))
     if new_v:
         return 1
     if inconclusive:
-        for i in inconclusive:
-            print("INCONCLUSIVE property=%s %s" % (cid, i))
         return 2
     return 0
 
